@@ -5,6 +5,7 @@
 //! usage: seqmon --focus C01 --seed S --cases N [--case I] [--threads T] [--out report.json]
 
 use std::collections::BTreeSet;
+use std::io::Read;
 use std::ops::Bound;
 use std::path::Path;
 use std::sync::Mutex;
@@ -320,6 +321,16 @@ fn run_model<K: TestKey>(p: &Params, case: u64, rep: &mut Report) {
     // carry hundreds of entries (counts beyond one byte, records beyond the I/O buffer)
     let wide = case % 53 == 52 && K::NAME != "u8";
     let mut wide_prefix: Vec<Op<K>> = Vec::new();
+    // blob-integrity focus: one content above 4 MiB (beyond any buffer, mmap window or chunked
+    // code path), stored first and then overwritten / removed while readers hold it
+    if p.focus == "C06" && case % 25 == 24 && !(p.tier_thorough && case % 101 == 100) {
+        g.contents[0] = cassadilia_verif::ops::Content::new(78, (4 << 20) + rng.range(1, 2 << 20) as usize);
+        g.keys.truncate(2);
+        g.extra.truncate(1);
+        wide_prefix.push(Op::Put { key: g.keys[0].clone(), content: g.contents[0], chunks: vec![100] });
+        steps = 10;
+        rep.count("histories_with_blob_over_4MiB", 1);
+    }
     if wide {
         let n = rng.range(140, 330) as usize;
         let all: Vec<K> = (0..n).map(|i| K::bulk(i, 7)).collect();
@@ -421,9 +432,45 @@ fn run_model<K: TestKey>(p: &Params, case: u64, rep: &mut Report) {
         } else {
             None
         };
+        // readers obtained before a mutation keep streaming the complete original content (C06)
+        let mut held: Vec<(K, Vec<u8>, std::io::BufReader<std::fs::File>, Vec<u8>)> = Vec::new();
+        if op.is_mutation() && sess.is_open() {
+            for k in probes.iter() {
+                if held.len() >= 3 {
+                    break;
+                }
+                if let Some(v) = mr.model.map.get(k)
+                    && let Ok(Some(mut r)) = sess.cas().get_reader(k)
+                {
+                    let mut head = vec![0u8; v.len().min(1024)];
+                    if r.read_exact(&mut head).is_ok() {
+                        held.push((k.clone(), v.clone(), r, head));
+                    }
+                }
+            }
+        }
         let logs = mr.logs_record(&op);
         let want = mr.step(&op);
         let got = sess.exec(&op);
+        for (k, v, mut r, mut streamed) in held {
+            let ok = r.read_to_end(&mut streamed).is_ok();
+            rep.count("readers_held_across_a_mutation", 1);
+            if !ok || streamed != v {
+                findings.push(Finding::new(
+                    &["C06"],
+                    "a reader obtained before a mutation did not stream the complete original content",
+                    "held reader",
+                    format!(
+                        "key {k:?}: content of {} bytes, reader opened and {} bytes read before `{}`, {} bytes in total afterwards{}",
+                        v.len(),
+                        v.len().min(1024),
+                        op.enc().chars().take(60).collect::<String>(),
+                        streamed.len(),
+                        if ok { "" } else { " (read failed)" }
+                    ),
+                ));
+            }
+        }
         match &got {
             Ok(o) if *o == want => {}
             Ok(o) => findings.push(Finding::new(
